@@ -32,6 +32,8 @@ OWNED = {CTP: {"tip position"}, CFO: {"force"}, CTO: {"tip position"}, CFS: {"fo
 COMBOS = ([(CTP, {}), (CFO, {}), (SPLIT, {}), (SMOOTH, {})]
           + [(CTO, {"method": m}) for m in POC]
           + [(CFS, {"region": r, "strategy": s}) for r in REGIONS for s in STRATEGIES])
+#: the two steps without options are drawn three times as often as one option value of the others
+EXTRA_WEIGHT = [(SPLIT, {}), (SMOOTH, {})] * 2
 #: number of prefix variants per step (see ``prefix``)
 NVARIANTS = {CTP: 2, CFO: 3, CTO: 2, CFS: 1, SPLIT: 4, SMOOTH: 4}
 MAX_RUNS = 300
@@ -39,7 +41,7 @@ MAX_RUNS = 300
 RULE = ("Hypothesis draws (synthetic curve: 5 models, parameters over the bounds, 60-1200 samples per segment, "
         "linear / jittered / quadratic sampling, noise 0 or 1e-4..3e-2 of the force range, spatial tilt and temporal "
         "drift up to +-0.3 force ranges, segment flag flipping up to 3 % of the record before the turning point, "
-        "height quantisation 1e-11..2e-9 m, innate tip column or not) x (one of the 16 (step, option value) "
+        "height quantisation 1e-11..2e-9 m, height sensor noise 0..4 sample steps, innate tip column or not) x (one of the 16 (step, option value) "
         "combinations: tip-sample separation, force offset, 6 contact point methods, 3 regions x 2 strategies, "
         "segment discovery, height smoothing) x (a valid pipeline prefix for the step, with drawn options); the 20 "
         "well-formed recorded curves x the 16 combinations are enumerated in every run. non-trivial = the step "
@@ -47,7 +49,8 @@ RULE = ("Hypothesis draws (synthetic curve: 5 models, parameters over the bounds
 ASSUMPTIONS = [
     "well-formed (fixed by the generator, verified per case): baseline >= 10 % of the approach and >= 20 samples, "
     "each flagged segment >= 30 samples, noise <= 3 % of the force range (force rises > 10x above the noise), "
-    "heights monotonic up to that noise (height = tip - force / k), at most " + str(MAX_RUNS) + " runs of equal "
+    "heights monotonic up to noise (height = tip - force / k + sensor noise of <= 4 mean sample steps; for height "
+    "smoothing a lagged segment flag is repaired by segment discovery first, as the step declares), at most " + str(MAX_RUNS) + " runs of equal "
     "heights per segment (smooth_axis_monotone resolves one run per iteration and gives up at its documented "
     "max_iter=1000); recorded curves: the files not labelled 'bad'",
     "a pipeline is valid when required steps come earlier and optional predecessors, when present, come earlier",
@@ -81,9 +84,36 @@ def count_runs(a):
     return int(np.sum(z & ~np.concatenate([[False], z[:-1]])))
 
 
+def curve_arrays(curve):
+    """vlib.synth arrays plus sensor noise on the measured height (``hnoise`` in units of the mean
+    sample step of the height, added before quantisation; the tip position nanite computes inherits it)"""
+    a = synth.arrays(curve)
+    hn = curve.get("hnoise") or 0.0
+    if hn:
+        n = a["tip"].size
+        h = a["tip"] - a["force"] / curve["k"]
+        rng = np.random.RandomState(int(curve.get("noise_seed", 0)) + 104729)
+        h = h + rng.normal(0.0, hn * float(np.ptp(h)) * 2 / n, size=n)
+        q = curve.get("quant") or 0.0
+        if q:
+            h = np.round(h / q) * q
+        a["height"] = h
+    return a
+
+
+def build(curve):
+    from nanite.indent import Indentation
+    a = curve_arrays(curve)
+    data = {"force": a["force"].copy(), "height (measured)": a["height"].copy(),
+            "segment": a["segment"].copy(), "time": a["time"].copy()}
+    if curve.get("with_tip"):
+        data["tip position"] = a["tip"].copy()
+    return Indentation(data=data, metadata=synth.metadata(curve))
+
+
 def synth_facts(curve):
     """well-formedness numbers of a synthetic curve record (pure function of the record)"""
-    a = synth.arrays(curve)
+    a = curve_arrays(curve)
     n_app, n_ret = int(curve["n_app"]), int(curve["n_ret"])
     seg = a["segment"]
     nb = int(np.sum(a["tip"][:n_app] > curve["params"]["contact_point"]))
@@ -92,12 +122,13 @@ def synth_facts(curve):
         runs = max(runs, count_runs(a["height"][seg == s]))
     runs = max(runs, count_runs(a["height"][:n_app]), count_runs(a["height"][n_app:]))
     return {"n_baseline": nb, "n_app": n_app, "n_ret": n_ret, "n_seg0": int(np.sum(seg == 0)),
-            "n_seg1": int(np.sum(seg == 1)), "runs": runs}
+            "n_seg1": int(np.sum(seg == 1)), "runs": runs, "noise": curve.get("noise") or 0.0,
+            "hnoise": curve.get("hnoise") or 0.0}
 
 
 def well_formed(f):
     return (f["n_baseline"] >= 20 and f["n_baseline"] >= 0.1 * f["n_app"] and f["n_seg0"] >= 30
-            and f["n_seg1"] >= 30 and f["runs"] <= MAX_RUNS)
+            and f["n_seg1"] >= 30 and f["runs"] <= MAX_RUNS and f["noise"] <= 0.03 and f["hnoise"] <= 4)
 
 
 def make_well_formed(curve, lag_frac):
@@ -137,9 +168,15 @@ def prefix(step, variant, m, region, strategy):
 def st_case(draw):
     curve = draw(synth.st_curve(st, noise=st.sampled_from([0.0, 0.0, 1e-4, 1e-3, 1e-2, 3e-2]), n_range=(60, 1200),
                                 tilt=True, drift=True, quant=True, min_baseline_frac=0.12))
+    curve["hnoise"] = draw(st.sampled_from([0.0, 0.0, 0.3, 1.0, 2.0, 4.0]))
     curve = make_well_formed(curve, draw(st.sampled_from([0.0, 1.0, 1.0])) * draw(st.floats(0.0, 0.03)))
-    step, opt = draw(st.sampled_from(COMBOS))
-    pre = prefix(step, draw(st.integers(0, NVARIANTS[step] - 1)),
+    step, opt = draw(st.sampled_from(COMBOS + EXTRA_WEIGHT))
+    variant = draw(st.integers(0, NVARIANTS[step] - 1))
+    if step == SMOOTH and curve["lag"]:
+        # a lagged flag leaves V-shaped (not monotonic) heights in the retract segment: the
+        # well-formed pipeline repairs the flag first (steps_optional of smooth_height)
+        variant = 2 + variant % 2
+    pre = prefix(step, variant,
                  draw(st.sampled_from(["deviation_from_baseline", "frechet_direct_path", "gradient_zero_crossing",
                                        "fit_line_polynomial", "fit_line_polynomial", "fit_constant_line",
                                        "fit_constant_polynomial"])),
@@ -164,7 +201,7 @@ def recorded_cases():
 
 def fresh(case):
     if case["src"] == "synth":
-        return synth.build(case["curve"])
+        return build(case["curve"])
     return recorded.fresh(case["file"], case["enum"])
 
 
@@ -244,7 +281,6 @@ def rel_force_offset(ctx, b, a, desc, info):
         ctx.check(abs(m) <= 8 * EPS * float(np.max(np.abs(f0))), "baseline-mean-not-zero", desc,
                   f"mean force of the {idp} pre-contact samples after correction is {m:.3e} "
                   f"(force range {float(np.ptp(f0)):.3e}, before: {c:.3e})")
-        c = float(np.median(f0 - f1))
     else:
         ctx.event("force_offset_no_baseline")
         c = float(f0[0])
@@ -397,7 +433,7 @@ def check_case(case, ctx):
         ctx.extra["max_equal_height_runs_generated"] = max(ctx.extra.get("max_equal_height_runs_generated", 0),
                                                            facts["runs"])
         classes += [case["curve"]["model"], "noisy" if case["curve"]["noise"] else "noise_free"]
-        for key in ("tilt", "drift", "lag", "quant", "with_tip"):
+        for key in ("tilt", "drift", "lag", "quant", "with_tip", "hnoise"):
             if case["curve"].get(key):
                 classes.append(key)
 
